@@ -1,4 +1,4 @@
 SPECIFICATION Spec
-CONSTANTS MaxLead = 1  MaxPrefix = 2
+CONSTANTS MaxLead = 2  MaxPrefix = 1
 INVARIANT Emit
 CHECK_DEADLOCK FALSE
